@@ -82,7 +82,8 @@ package gnmi
 //@ func (*Server).doDelete(s, prefix, gnmiPath, target) (err)
 //@   props C13, C12, C03
 //@   safe
-//@   modifies target.removes, checkFailures, lastFindExact, lastFindKey
+//@   modifies target.removes, checkFailures, lastFindExact, lastFindKey, lastFindPath
+//@   ensures {C13} delete-looked-up-on-effective-path: err == nil ==> lastFindPath == effPath(prefix, gnmiPath)
 //@   requires serverWF(s) && target != nil && target.plugin != nil
 //@   ensures {C13,C03} delete-cut-only-for-exact-key-leaf: err == nil && !(lastFindExact && lastFindKey) ==> target.removes[len(target.removes) - 1] == effPath(prefix, gnmiPath)
 //@   ensures {C13} delete-lands-on-effective-path: err == nil ==> len(target.removes) == old(len(target.removes)) + 1 && (target.removes[len(target.removes) - 1] == effPath(prefix, gnmiPath) || (hasPrefix(effPath(prefix, gnmiPath), target.removes[len(target.removes) - 1] + "/") && !contains(substr(effPath(prefix, gnmiPath), len(target.removes[len(target.removes) - 1]) + 1, len(effPath(prefix, gnmiPath))), "/")))
@@ -94,7 +95,9 @@ package gnmi
 //@ func (*Server).doUpdateOrReplace(s, ctx, prefix, u, target) (err)
 //@   props C13, C12
 //@   safe
-//@   modifies mapOf(target.updates), checkFailures, getPathValuesCalls, lastGetPathValuesPrefix, lastFindExact, lastFindKey
+//@   modifies mapOf(target.updates), checkFailures, getPathValuesCalls, lastGetPathValuesPrefix, lastFindExact, lastFindKey, lastFindPath, lastKeyCheckPath
+// a scalar update is accepted only after the model lookup and the key-leaf check were made on the path it lands on
+//@   ensures {C13} checks-made-on-effective-path: err == nil && getPathValuesCalls == old(getPathValuesCalls) ==> lastFindPath == effPath(prefix, u.Path) && lastKeyCheckPath == effPath(prefix, u.Path)
 //@   requires serverWF(s) && target != nil && target.plugin != nil && target.updates != nil && u != nil && wireValidTV(u.Val) && updatesWF(target)
 //@   ensures {C12,C13} update-values-never-nil: updatesWF(target)
 //@   ensures {C12} error-is-well-formed: errWF(err)
@@ -118,7 +121,10 @@ package gnmi
 //@ func (*Server).processSubscribeRequest(s, ctx, sctx, req) (err)
 //@   props C19, C12
 //@   safe
-//@   requires serverWF(s) && sctx != nil && wireValidSub(req) && (forall t string :: !targetLookups[t])
+//@   requires serverWF(s) && sctx != nil && sctx.stream != nil && wireValidSub(req)
+// the ledger of target lookups is ghost state: C19 reads it from an empty ledger; the Subscribe loop (C12) cannot and need not reset it
+//@   requires {C19} empty-lookup-ledger: forall t string :: !targetLookups[t]
+//@   modifies sctx.req, sctx.treqs, targetLookups, targetLookupCount, sbSubscribeCalls, pollCalls
 //@   ensures {C19} duplicate-subscription-refused: isSubscribeMsg(req) && old(sctx.req) != nil ==> err != nil && sctx.req == old(sctx.req) && sctx.treqs == old(sctx.treqs) && targetLookupCount == old(targetLookupCount) && sbSubscribeCalls == old(sbSubscribeCalls) && pollCalls == old(pollCalls)
 //@   ensures {C19} poll-before-subscribe-refused: !isSubscribeMsg(req) && isPollMsg(req) && old(sctx.req) == nil ==> err != nil && targetLookupCount == old(targetLookupCount) && pollCalls == old(pollCalls)
 //@   ensures {C19} unknown-message-refused: !isSubscribeMsg(req) && !isPollMsg(req) ==> err != nil && targetLookupCount == old(targetLookupCount) && sbSubscribeCalls == old(sbSubscribeCalls) && pollCalls == old(pollCalls)
@@ -223,3 +229,59 @@ package gnmi
 //@   safe
 //@   requires serverWF(s) && wireValidGet(req) && ctx != nil
 //@   ensures errWF(err)
+
+// The goroutines that processRequest spawns for a synchronous Get (one per target, and the one that closes
+// the error channel). A panic in a goroutine takes the whole process down, so their bodies are swept too;
+// processRequest proves their preconditions where it spawns them. Captured variables (s, ctx, wg, errCh)
+// are named as in the source.
+//@ func (*Server).processRequest$1(target)
+//@   props C12
+//@   safe
+//@   requires {C12} spawned-for-a-collected-target: serverWF(s) && ctx != nil && wg != nil && target != nil && target.configuration != nil
+//@   modifies lastConnGetOK
+//@ func (*Server).processRequest$2()
+//@   props C12
+//@   safe
+//@   requires {C12} waits-on-the-group: wg != nil
+//@   modifies nothing
+
+// Capabilities, and the two relays of the Subscribe path with the handler closure that forwards a target's
+// answers to the subscriber. getGNMIServiceVersion reads a constant of the generated protobuf descriptor
+// through reflection; no request data reaches it (trusted).
+//@ func getGNMIServiceVersion() (v, err)
+//@   trusted
+//@   modifies nothing
+//@   ensures errWF(err)
+//@ func (*Server).Capabilities(s, ctx, req) (resp, err)
+//@   props C12
+//@   safe
+//@   requires serverWF(s) && ctx != nil
+// (`inlined`: the body is swept here; processSubscribeRequest keeps seeing the body itself, which carries C19)
+//@ func (*Server).sendSubscriptionRequest(s, ctx, sctx, target, req) (err)
+//@   props C12
+//@   safe
+//@   inlined
+//@   requires serverWF(s) && ctx != nil && sctx != nil && sctx.stream != nil && req != nil
+// the callback that relays a target's answers: what it needs of the captured subscription context is an
+// obligation of sendSubscriptionRequest, where the closure is created
+//@ func (*Server).sendSubscriptionRequest$1(msg) (err)
+//@   props C12
+//@   safe
+//@   requires {C12} relays-onto-an-open-stream: sctx != nil && sctx.stream != nil
+//@ func (*Server).sendPollRequest(s, ctx, target) (err)
+//@   props C12
+//@   safe
+//@   inlined
+//@   requires serverWF(s) && ctx != nil
+//@ func newTransaction(targets, overrides, strategy, username) (t, err)
+//@   props C12
+//@   safe
+//@   requires targetsWF(targets)
+
+// The Subscribe handler itself: the receive loop over the stream. What Recv hands out is a message decoded
+// from the wire (assumed contract in /verif/contracts/lib/grpc.spec).
+//@ func (*Server).Subscribe(s, stream) (err)
+//@   props C12
+//@   safe
+//@   requires serverWF(s) && stream != nil
+//@   loop 1 invariant sctx != nil && sctx.stream != nil
